@@ -63,8 +63,21 @@ def compare(cfg, ops):
     case = dict(cfg=cfg.key(), ops=ops)
     disc_all = any(op == ('disc', None) for op in ops[:upto])
     v = None
-    if a[0] != b[0]:
-        s = sorted(k for k in set(a[0]) | set(b[0]) if a[0].get(k) != b[0].get(k))[0]
+    def same_session(s):
+        x, y = a[0].get(s, ([], [])), b[0].get(s, ([], []))
+        if x[0] != y[0]:
+            return False
+        if x[1] == y[1]:
+            return True
+        # one server may be ahead in *delivering* (simultaneous timers are served in a different order): what the other has not
+        # delivered yet must still be in its queue, and what both delivered must agree, transport included
+        short, long_, lag = (x[1], y[1], 'threaded') if len(x[1]) < len(y[1]) else (y[1], x[1], 'asyncio')
+        fl = pair[lag].post[-1].get(s) if pair[lag].post else None
+        queued = fl[4] if fl else 0
+        return long_[:len(short)] == short and len(long_) - len(short) <= queued
+
+    if any(not same_session(s) for s in set(a[0]) | set(b[0])):
+        s = sorted(k for k in set(a[0]) | set(b[0]) if not same_session(k))[0]
         ea, eb = a[0].get(s, ([], []))[0], b[0].get(s, ([], []))[0]
         what = 'events' if ea != eb else 'messages'
         only_missing_server_disc = (eb == ea + [('disconnect', 'server disconnect')])
